@@ -58,7 +58,7 @@ def showOutcome (trace : List String) (v : Option Datum) (e : Option RunErr) : S
 /-- multi-valued operand of a predicate: its string-value is outside what C02/C01 fix -/
 def multiOperand (t : Tree) (here : Path) : Operand → Bool
   | .path p =>
-    let base : Path := match p.root with | .abs => { root := true } | .cur => {} | .rel => here
+    let base := rootBase here p.root
     match t.value { base with elems := base.elems ++ p.steps.map sstepElem } with
     | .slice (_ :: _ :: _) => true | _ => false
   | _ => false
